@@ -19,6 +19,17 @@ def runTerminal (rest : String) : String :=
   let outs := go {} ops
   if outs.isEmpty then "-" else " ; ".intercalate outs
 
+/-- kind `M`: `bits bits [bits] ; op ; op …` – the same operations on several terminals.  The model has no manipulator
+    OBJECTS (a manipulator is a value): every terminal behaves as if it ran the script alone. -/
+def multiScripts (rest : String) : List String :=
+  match rest.splitOn ";" with
+  | [] => []
+  | h :: ops => (words h).map fun b => ";".intercalate (s!" {b} " :: ops)
+
+def runMulti (rest : String) : String :=
+  let j := " || ".intercalate ((multiScripts rest).map runTerminal)
+  s!"{j} ## {j}"
+
 def runLookup (rest : String) : String :=
   let (code, _) := (do let n ← Rd.num; rdBytes n : Rd (List Byte)).run (words rest)
   match lookupCharset code with | some cs => toString cs.code | none => "-"
@@ -49,6 +60,7 @@ def runLine (line : String) : String :=
   let rest := (line.drop 1).toString
   match kind with
   | 'T' => runTerminal rest
+  | 'M' => runMulti rest
   | 'D' => runLookup rest
   | 'N' => runEncodeCs rest
   | 'H' => runHigh rest
